@@ -23,7 +23,7 @@ class Prop(common.PropertyCheck):
             yield {'k': 'file', 'spec': fcsgen.gen_spec(rng, family=fcsgen.FAMILIES[(i // 2) % 7] if i % 2 else None)}
         # files whose DATA segment spans several MiB (block-wise readers), mixed widths with an event size that is not a power of two
         for i in range(self.budget(2, 12)):
-            yield {'k': 'big', 'widths': rng.choice([[24, 16], [24, 24, 24], [8, 16, 24], [40, 16, 8], [16, 8]]), 'mib': rng.choice([1.2, 2.3, 3.1]),
+            yield {'k': 'big', 'widths': rng.choice([[24, 16], [24, 24, 24], [8, 16, 24], [40, 16], [16, 8]]), 'mib': rng.choice([1.2, 2.3, 3.1]),
                    'big_endian': rng.random() < 0.5, 'pad_after': rng.choice([0, 1, 64]), 'end_conv': rng.choice(['last', 'past']), 'seed': rng.randrange(1 << 30)}
         # histories: load, edit the loaded sample in place, load the same path again
         for i in range(self.budget(60, 600)):
